@@ -92,12 +92,16 @@ Definition pow_like_c (v : vals) : Prop :=
   (forall x, pow x (ndec N 1 2) = nsqrt N x) /\
   (forall x, pow x three = x * x * x).
 
+Opaque M_to_f E_to_f.
 (* retrograde conventions: pomega = Omega - omega, theta = Omega - omega - f, l = Omega - omega - M *)
 Lemma flow_omega_same : forall pe v, py_omega pe v = c_omega pe v.
 Proof. intros [| |] v; reflexivity. Qed.
 
 Lemma flow_f_same_no_T : forall an a om v, an <> AnT -> py_f an a om v = c_f an a om v.
-Proof. intros [| | | | | |] a om v H; try reflexivity; try (cbn; destruct (zero <? l_cos L (vinc v)); reflexivity). congruence. Qed.
+Proof.
+  intros an a om v H. destruct an; try (exfalso; apply H; reflexivity); unfold py_f, c_f; cbv zeta;
+  try reflexivity; destruct (zero <? l_cos L (vinc v)); reflexivity.
+Qed.
 
 Lemma flow_same : forall afp pe an v, pow_like_c v ->
   (four * l_pi L * l_pi L = four * (l_pi L * l_pi L)) ->
@@ -106,17 +110,19 @@ Proof.
   intros afp pe an v [H1 [H2 [H3 [H4 H5]]]] Hassoc. unfold py_elements, c_elements.
   assert (Ha : py_a afp v = c_a afp v).
   { unfold py_a, c_a. destruct afp; [|reflexivity]. rewrite H1, H2, H3, Hassoc. reflexivity. }
-  rewrite Ha, flow_omega_same. cbv zeta. do 5 f_equal.
-  destruct an; try reflexivity; try (cbn; destruct (zero <? l_cos L (vinc v)); reflexivity).
-  cbn. rewrite H4, H5. reflexivity.
+  rewrite Ha, flow_omega_same.
+  assert (Hf : forall a om, py_f an a om v = c_f an a om v).
+  { intros a om. destruct an; try (apply flow_f_same_no_T; congruence).
+    unfold py_f, c_f. rewrite H4, H5. reflexivity. }
+  rewrite Hf. reflexivity.
 Qed.
 
 (* without any assumption on pow: everything that does not go through P -> a or T -> M is the same expression *)
 Lemma flow_same_bitwise : forall pe an v, an <> AnT ->
   py_elements false pe an v = c_elements false pe an v.
 Proof.
-  intros pe an v H. unfold py_elements, c_elements. cbn [py_a c_a]. rewrite flow_omega_same. cbv zeta.
-  do 5 f_equal. apply flow_f_same_no_T. exact H.
+  intros pe an v H. unfold py_elements, c_elements, py_a, c_a. rewrite flow_omega_same.
+  rewrite (flow_f_same_no_T an _ _ v H). reflexivity.
 Qed.
 
 End Flow.
